@@ -104,11 +104,14 @@ def synth(scope, rng=None, n_random=0):
     return zones_map, rules_map
 
 
+SYNTH_YEARS = {'basic': (1974, 2038), 'extended': (1980, 2100)}   # the validity range written to kZoneContext: not the shipped 2000/2050
+
+
 def synth_tzdb(scope, rng=None, n_random=0):
     zones_map, rules_map = synth(scope, rng, n_random)
     tr = importlib.import_module("tzdb.transformer")
     return {
-        'tz_version': 'synthetic', 'tz_files': [], 'scope': scope, 'start_year': 2000, 'until_year': 2050,
+        'tz_version': 'synthetic', 'tz_files': [], 'scope': scope, 'start_year': SYNTH_YEARS[scope][0], 'until_year': SYNTH_YEARS[scope][1],
         'until_at_granularity': 60, 'offset_granularity': 60 if scope == 'extended' else 900, 'strict': False,
         'zones_map': zones_map, 'links_map': {}, 'rules_map': rules_map, 'removed_zones': {}, 'removed_links': {},
         'removed_policies': {}, 'notable_zones': {}, 'notable_links': {}, 'notable_policies': {},
@@ -131,7 +134,7 @@ def expected_era(e):
             "untilDay": e['untilDay'], "untilTimeMinutes": e['untilSecondsTruncated'] // 60, "untilTimeSuffix": e['untilTimeSuffix']}
 
 
-def compare_dump(v, scope, dump, zones_map, rules_map, tag, counters):
+def compare_dump(v, scope, dump, zones_map, rules_map, tag, counters, years=(2000, 2050)):
     pols = {p["id"]: p for p in dump["policies"]}
     seen_fields = set()
     zmap = {z["name"]: z for z in dump["zones"]}
@@ -142,6 +145,10 @@ def compare_dump(v, scope, dump, zones_map, rules_map, tag, counters):
         z = zmap.get(name)
         if z is None:
             continue
+        counters["zone_year_ranges"] = counters.get("zone_year_ranges", 0) + 1
+        if (z["startYear"], z["untilYear"]) != tuple(years):
+            v.violation("c12:%s-zone-field:startYear/untilYear" % tag, "the validity range read back through the ZoneInfoBroker differs from the range the tables were generated for",
+                        {"scope": scope, "zone": name, "got": [z["startYear"], z["untilYear"]], "want": list(years)})
         if z["numEras"] != len(eras):
             v.violation("c12:%s-era-count" % tag, "numEras differs", {"scope": scope, "zone": name, "got": z["numEras"], "want": len(eras)})
             continue
@@ -250,7 +257,7 @@ def run(tier):
             for d in r.infos:
                 scope = d["kind"]
                 cnt = {}
-                compare_dump(v, scope, d, tzdbs[scope]['zones_map'], tzdbs[scope]['rules_map'], "synthetic", cnt)
+                compare_dump(v, scope, d, tzdbs[scope]['zones_map'], tzdbs[scope]['rules_map'], "synthetic", cnt, years=SYNTH_YEARS[scope])
                 for k, n in cnt.items():
                     if k != "_done":
                         counters["syn.%s.%s" % (scope, k)] = n
